@@ -10,22 +10,20 @@ Lemma fragment_err_class q es e : in_fragment e = true ->
   forall c, eval [] q es e = Err c -> c = ErrType \/ c = ErrAttrMissing.
 Proof.
   induction e; cbn [in_fragment]; try discriminate; intros Hf c H.
-  - cbn in H. discriminate.
-  - cbn in H. discriminate.
   - apply andb_prop in Hf as [Ha Hb]. rewrite eval_and in H.
     destruct (eval [] q es e1) as [va|ea] eqn:Ea; cbn in H; [|inversion H; subst; eapply IHe1; eauto].
     destruct (as_bool va) as [x|ex] eqn:Ex; cbn in H.
-    + destruct x; [|discriminate].
+    + destruct x; [|discriminate H].
       destruct (eval [] q es e2) as [vb|eb] eqn:Eb; cbn in H; [|inversion H; subst; eapply IHe2; eauto].
-      destruct (as_bool vb) as [y|ey] eqn:Ey; cbn in H; [discriminate|].
+      destruct (as_bool vb) as [y|ey] eqn:Ey; cbn in H; [discriminate H|].
       inversion H; subst. destruct vb as [p| | |]; try (cbn in Ey; inversion Ey; auto). destruct p; cbn in Ey; inversion Ey; auto.
     + inversion H; subst. destruct va as [p| | |]; try (cbn in Ex; inversion Ex; auto). destruct p; cbn in Ex; inversion Ex; auto.
   - apply andb_prop in Hf as [Hab Hc]. apply andb_prop in Hab as [Ha Hb]. rewrite eval_or in H.
     destruct (eval [] q es e1) as [va|ea] eqn:Ea; cbn in H; [|inversion H; subst; eapply IHe1; eauto].
     destruct (as_bool va) as [x|ex] eqn:Ex; cbn in H.
-    + destruct x; [discriminate|].
+    + destruct x; [discriminate H|].
       destruct (eval [] q es e2) as [vb|eb] eqn:Eb; cbn in H; [|inversion H; subst; eapply IHe2; eauto].
-      destruct (as_bool vb) as [y|ey] eqn:Ey; cbn in H; [discriminate|].
+      destruct (as_bool vb) as [y|ey] eqn:Ey; cbn in H; [discriminate H|].
       inversion H; subst. destruct vb as [p| | |]; try (cbn in Ey; inversion Ey; auto). destruct p; cbn in Ey; inversion Ey; auto.
     + inversion H; subst. destruct va as [p| | |]; try (cbn in Ex; inversion Ex; auto). destruct p; cbn in Ex; inversion Ex; auto.
   - destruct op; try discriminate. rewrite eval_not in H.
@@ -33,11 +31,10 @@ Proof.
     destruct va as [p| | |]; try (cbn in H; inversion H; auto). destruct p; cbn in H; inversion H; auto.
   - destruct op; try discriminate. apply andb_prop in Hf as [Ha Hb]. rewrite eval_eq in H.
     destruct (eval [] q es e1) as [va|ea] eqn:Ea; cbn in H; [|inversion H; subst; eapply IHe1; eauto].
-    destruct (eval [] q es e2) as [vb|eb] eqn:Eb; cbn in H; [discriminate|inversion H; subst; eapply IHe2; eauto].
+    destruct (eval [] q es e2) as [vb|eb] eqn:Eb; cbn in H; [discriminate H|inversion H; subst; eapply IHe2; eauto].
   - destruct e; try discriminate. destruct v; try discriminate.
     rewrite eval_getattr in H. cbn in H. destruct (lookup a (rcontext q)); inversion H; auto.
   - destruct e; try discriminate. destruct v; try discriminate.
-    rewrite eval_hasattr in H. cbn in H. discriminate.
 Qed.
 
 (* a typechecked expression of the fragment evaluates, without error, to a value of its type *)
@@ -50,7 +47,7 @@ Proof.
   intros Henv e Hf cs t cs' Hc Ht.
   destruct (tc_sound m sch env q es Henv e Hf cs t cs' Hc Ht) as [[c [He Ha]]|[v [He [Hv _]]]].
   - exfalso. destruct (fragment_err_class q es e Hf c He) as [->| ->];
-      destruct Ha as [Ha|[Ha|Ha]]; discriminate.
+      destruct Ha as [Ha|[Ha|Ha]]; discriminate Ha.
   - eauto.
 Qed.
 
